@@ -241,59 +241,20 @@ static size_t safec_out_rev(out_fct_type out, char *buffer, size_t idx,
 }
 
 // internal itoa format
+// buf holds the len digits of the value in reverse order. Sign, base prefix
+// and all padding are written directly, so that neither the precision nor the
+// field width is limited by the size of the digit buffer.
 static size_t safec_ntoa_format(out_fct_type out, const char *funcname,
                                 char *buffer, size_t idx, size_t maxlen,
                                 char *buf, size_t len, bool negative,
                                 unsigned int base, unsigned int prec,
                                 unsigned int width, unsigned int flags) {
-    // the precision gives the minimum number of digits, also when left-justified
-    while ((len < prec) && (len < PRINTF_NTOA_BUFFER_SIZE)) {
-        buf[len++] = '0';
-    }
-    // pad leading zeros
-    if (!(flags & FLAGS_LEFT)) {
-        if (width && (flags & FLAGS_ZEROPAD) &&
-            (negative || (flags & (FLAGS_PLUS | FLAGS_SPACE)))) {
-            width--;
-        }
-        while ((flags & FLAGS_ZEROPAD) && (len < width) &&
-               (len < PRINTF_NTOA_BUFFER_SIZE)) {
-            buf[len++] = '0';
-        }
-    }
+    char pre[3]; // sign and base prefix, in output order
+    size_t npre = 0U;
+    size_t zeros = 0U; // zeros between the prefix and the digits
+    size_t total, i;
+    int rc;
 
-    // handle hash
-    if (flags & FLAGS_HASH) {
-        if (!(flags & FLAGS_PRECISION) && len &&
-            ((len == prec) || (len == width))) {
-            len--;
-            if (len && (base == 16U)) {
-                len--;
-            }
-        }
-        if ((base == 16U) && !(flags & FLAGS_UPPERCASE) &&
-            (len < PRINTF_NTOA_BUFFER_SIZE)) {
-            buf[len++] = 'x';
-        } else if ((base == 16U) && (flags & FLAGS_UPPERCASE) &&
-                   (len < PRINTF_NTOA_BUFFER_SIZE)) {
-            buf[len++] = 'X';
-        } else if ((base == 2U) && (len < PRINTF_NTOA_BUFFER_SIZE)) {
-            buf[len++] = 'b';
-        }
-        if (len < PRINTF_NTOA_BUFFER_SIZE) {
-            buf[len++] = '0';
-        }
-    }
-
-    if (len < PRINTF_NTOA_BUFFER_SIZE) {
-        if (negative) {
-            buf[len++] = '-';
-        } else if (flags & FLAGS_PLUS) {
-            buf[len++] = '+'; // ignore the space if the '+' exists
-        } else if (flags & FLAGS_SPACE) {
-            buf[len++] = ' ';
-        }
-    }
     if (width > 2147483614) {
         char msg[80];
         snprintf(msg, sizeof msg, "%s: width exceeds max", funcname);
@@ -301,7 +262,73 @@ static size_t safec_ntoa_format(out_fct_type out, const char *funcname,
         return -ESLEMAX;
     }
 
-    return safec_out_rev(out, buffer, idx, maxlen, buf, len, width, flags);
+    if (negative) {
+        pre[npre++] = '-';
+    } else if (flags & FLAGS_PLUS) {
+        pre[npre++] = '+'; // ignore the space if the '+' exists
+    } else if (flags & FLAGS_SPACE) {
+        pre[npre++] = ' ';
+    }
+
+    // the precision gives the minimum number of digits
+    if (prec > len) {
+        zeros = prec - len;
+    }
+
+    // alternate form. the callers drop the flag for a zero value, but for
+    // octal, where the result just has to start with a zero
+    if (flags & FLAGS_HASH) {
+        if (base == 8U) {
+            if (!zeros && !(len && buf[len - 1] == '0')) {
+                zeros = 1U;
+            }
+        } else if (base == 16U) {
+            pre[npre++] = '0';
+            pre[npre++] = (flags & FLAGS_UPPERCASE) ? 'X' : 'x';
+        } else if (base == 2U) {
+            pre[npre++] = '0';
+            pre[npre++] = 'b';
+        }
+    }
+
+    // pad with leading zeros up to the width
+    total = npre + zeros + len;
+    if ((flags & FLAGS_ZEROPAD) && !(flags & FLAGS_LEFT) && width > total) {
+        zeros += width - total;
+        total = width;
+    }
+
+    if (!(flags & FLAGS_LEFT)) {
+        for (i = total; i < width; i++) {
+            rc = out(' ', buffer, idx++, maxlen);
+            if (unlikely(rc < 0))
+                return rc;
+        }
+    }
+    for (i = 0U; i < npre; i++) {
+        rc = out(pre[i], buffer, idx++, maxlen);
+        if (unlikely(rc < 0))
+            return rc;
+    }
+    for (i = 0U; i < zeros; i++) {
+        rc = out('0', buffer, idx++, maxlen);
+        if (unlikely(rc < 0))
+            return rc;
+    }
+    while (len) {
+        rc = out(buf[--len], buffer, idx++, maxlen);
+        if (unlikely(rc < 0))
+            return rc;
+    }
+    if (flags & FLAGS_LEFT) {
+        for (i = total; i < width; i++) {
+            rc = out(' ', buffer, idx++, maxlen);
+            if (unlikely(rc < 0))
+                return rc;
+        }
+    }
+
+    return idx;
 }
 
 // internal itoa for 'long' type
@@ -313,8 +340,8 @@ static size_t safec_ntoa_long(out_fct_type out, const char *funcname,
     char buf[PRINTF_NTOA_BUFFER_SIZE];
     size_t len = 0U;
 
-    // no hash for 0 values
-    if (!value) {
+    // no hash for 0 values, but octal
+    if (!value && base != 8U) {
         flags &= ~FLAGS_HASH;
     }
 
@@ -343,8 +370,8 @@ static size_t safec_ntoa_long_long(out_fct_type out, const char *funcname,
     char buf[PRINTF_NTOA_BUFFER_SIZE];
     size_t len = 0U;
 
-    // no hash for 0 values
-    if (!value) {
+    // no hash for 0 values, but octal
+    if (!value && base != 8U) {
         flags &= ~FLAGS_HASH;
     }
 
